@@ -33,6 +33,7 @@ Lemma sys_read_reg o n : regok o -> regok (fst (sys_read o n)).
 Proof.
   intros H. unfold sys_read.
   destruct (o_closed o || _); [exact H|].
+  destruct (match o_kind o with KLsn => true | _ => false end); [destruct (0 <? e_rq o); [apply (regok_bits o); auto|exact H]|].
   destruct (0 <? e_rq o); [apply (regok_bits o); auto|].
   destruct (e_rst o); [apply (regok_bits o); auto|].
   destruct (o_kind o); try exact H; destruct (e_reof o); exact H.
@@ -86,7 +87,9 @@ Proof.
   { unfold o1, rg, regok in *. destruct w; cbn; intros Hb; rewrite Hb; apply Ho; exact Hb. }
   pose proof (reg_set_obj s i o1 Hi Ho1) as H1.
   destruct (if w then o_wr o else o_rd o) as [p|]; [|exact H1].
-  destruct (negb (err =? xNil)); [exact H1|]. apply io_now_reg. exact H1.
+  destruct (negb (err =? xNil)); [exact H1|].
+  destruct (o_kind o); try (apply io_now_reg; exact H1).
+  pose proof (sys_read_reg o1 0 Ho1) as Hr. destruct (sys_read o1 0) as [o2 r]. cbn [fst] in *. apply reg_set_obj; assumption.
 Qed.
 
 Lemma write_event_reg s i err : reg_inv s -> reg_inv (fst (write_event s i err)).
